@@ -39,7 +39,9 @@ CHECKS = {
        "invert, decode, re-encode requested parity) returns exactly the specification: ErrTooFewShards iff fewer than d present, "
        "otherwise every filled shard is the original and present shards are untouched. C02_never_wrong / C02_any: for ANY "
        "generator (PAR1, custom) success never carries wrong bytes. Tie: op-level correspondence of the real Reconstruct* calls "
-       "against L0 (and L1 for d<=24), exhaustive over erasure sets for small configurations.",
+       "against L0 (and L1 for d<=24), exhaustive over erasure sets for small configurations. The inversion itself is tied by "
+       "theorem: matrix.go is regenerated into Lean on every run and C17m_Invert proves the regenerated Invert (pivot search, "
+       "!=1 / !=0 shortcuts, both sweeps) equal to the model's inversion for every square byte matrix, singular verdict included.",
   note=TB + " Modelled: nil/empty/empty-with-capacity all denote 'missing' (exercised by correspondence); the inversion cache "
        "(C10) and the SIMD/chunked evaluation of encodeRow (C03/C07/C08) are assumed here.",
   design="4/C02"),
@@ -49,7 +51,9 @@ CHECKS = {
        "Cauchy = 1/(i xor j), PAR1 = (c+1)^r, XOR = 1, top square = identity; Encode's parity byte k = sum_c A[r][c]*data[c][k] "
        "depends only on column k (C03_local), is linear (C03_linear), data untouched. Tie: generators of all six options through "
        "Encode of unit vectors, and Encode on seeded data around every dispatch threshold, option sets and tails 0..63, against "
-       "encodeSpec evaluated with shift-and-reduce products.",
+       "encodeSpec evaluated with shift-and-reduce products. The generator builders are tied by theorem as well: buildMatrix, "
+       "buildMatrixCauchy, buildMatrixPAR1, buildXorMatrix, vandermonde, Multiply are regenerated from the Go source on every run and "
+       "proved equal to the model's builders for every shape (C17m_*).",
   note=TB + " The dispatch (which kernel covers which byte range) is exercised by correspondence here and modelled in C07; "
        "assembly kernels are tied by execution (C08).",
   design="4/C03"),
@@ -208,7 +212,9 @@ CHECKS = {
        "modelled Split algorithm equals input++zeros cut into d+p equal shards), C13_shape/C13_perShard (count, equal length, "
        "multiple of q), C13_content/C13_data_shards/C13_parity_zero, C13_join_split, C13_join_prefix and the error cases. Tie: "
        "Split of every length 1..3000 x 13 shapes (incl. p=0, d=1, Leopard GF8/GF16 rounding to 64) x spare capacities "
-       "pre-filled with 0xA5, aliasing count, Encode accepts the result; Join with truncations, nil patterns, all outSize classes.",
+       "pre-filled with 0xA5, aliasing count, bytes behind the last shard untouched, Encode accepts the result; Join with truncations, nil patterns, all outSize classes. "
+       "The per-shard size / total arithmetic of the three Split methods is regenerated from the Go source on every run and proved equal "
+       "to the model's (C13f_reedSolomon_sizes, C13f_leopardFF8_sizes, C13f_leopardFF16_sizes).",
   note=TB + " Found and fixed: Join with a negative outSize panicked (fix 33b1873).",
   design="4/C13"),
  "C14": dict(
@@ -245,7 +251,10 @@ CHECKS = {
        "New/NewStream over the whole int range, EXHAUSTIVE grids of {nil, empty, empty-with-capacity, right size, other size} "
        "over every argument position of a 2+1 matrix and a 2+2 Leopard encoder for Encode/Verify/Reconstruct/Update/"
        "EncodeIdx, stream calls with failing readers/writers under the watchdog; outcome classes ok/err/panic must agree; 20 s watchdog + goroutine-leak check; "
-       "every accepted encoder must Encode, Verify and Reconstruct.",
+       "every accepted encoder must Encode, Verify and Reconstruct. shardSize and checkShards - the validation every call starts "
+       "with - are regenerated from reedsolomon.go on every run (over shard shapes) and proved equal to the model's for every shard "
+       "list and both nilok values (C16f_shardSize, C16f_checkShards); exhaustive ReconstructSome mask grid (every length 0..total+1), "
+       "zero-parity shapes, stream Reconstruct/Join argument grids.",
   note=TB + " Hangs and goroutine leaks are measured, not proved. Found and fixed through this check: Join(-1), AllocAligned(-1), "
        "custom matrix with extra rows, shard-count overflow with a custom matrix, Update with zero-length non-nil shards (bd2a6b4, "
        "found under another VERIF_SEED in an unchanged-tree sweep).",
@@ -269,8 +278,10 @@ CHECKS = {
        "rewrites galAdd/galMultiply/galDivide/galOneOver/galExp, addMod/subMod/mulLog/ceilPow2/fwht2alt (GF8 and GF16), both "
        "isNeeded methods and matrix.go with four generator builders from the current source on every run; C17f_* / C17m_* "
        "prove the regenerated definitions equal the model/specification functions for ALL inputs in the Go types' ranges "
-       "(panics included); matrix.Invert and buildMatrix are compared with the model by execution (flag gen=). A construct "
-       "outside the subset is rejected and reported as a broken obligation (no-failing-input-found), never guessed.",
+       "(panics included); all of them are also executed next to the model on every run (flag gen=). A construct "
+       "outside the subset is rejected and reported as a broken obligation (no-failing-input-found), never guessed. "
+       "C17m_Invert: the regenerated matrix.Invert equals the model's Gaussian elimination for every square byte matrix (returns a "
+       "two-sided inverse, errSingular iff not invertible); C17m_buildMatrix, C17m_Multiply likewise.",
   note=TB + " Faithfulness of the Go-subset translator (integer widths, wrap-around, value-semantics slices, panics) is trusted; it is "
        "cross-checked by running the package's own functions on the same inputs. Leopard tables of the running package are tied to the model by executed comparison (complete for GF8 and for GF16 log/exp/skew/walsh; "
        "sampled log_m for the 33M-entry GF16 product tables); GF2P8AFFINEQB semantics as in the Intel SDM.",
